@@ -419,7 +419,7 @@ def loop_header(body_toks, open_idx):
 def r13_index_loop(toks, k, log, where):
     """R13: k-th loop (1-based) `for PAT in &mut EXPR {B}` / `for PAT in &EXPR {B}` ->
        `let mut vx_i: usize = 0; while vx_i < EXPR.len() { let PAT = &mut EXPR[vx_i]; B vx_i += 1; }`
-       refused if B contains `continue` (the increment would be skipped)."""
+       with `continue` in B (shared reference only) the increment follows the element access instead."""
     from extract import LostAnchor
     opens = find_loops(toks)
     if k < 1 or k > len(opens):
@@ -483,12 +483,19 @@ def r13_index_loop(toks, k, log, where):
     expr = "".join(t.text for t in expr_toks[2 if mut else 1:])
     close = match_close(toks, ob)
     body = toks[ob + 1:close]
-    if any(t.kind == "ident" and t.text == "continue" for t in body):
-        raise Unsupported("%s: R13 loop body contains `continue`" % where)
+    has_continue = any(t.kind == "ident" and t.text == "continue" for t in body)
     head = syn("let mut vx_i: usize = 0;\n        while vx_i < %s.len() " % expr)
     head[0].start = toks[kwi].start
-    first = syn("\n            let %s = &%s%s[vx_i];" % (pat, "mut " if mut else "", expr))
-    tail = syn("    vx_i += 1;\n        ")
+    if has_continue and not mut:
+        # a body with `continue`: the counter is advanced right after the element is taken (a `continue` would skip an increment
+        # at the end); at the loop head the counter means the same in both shapes
+        first = syn("\n            let %s = &%s[vx_i]; vx_i += 1;" % (pat, expr))
+        tail = syn("")
+    elif has_continue:
+        raise Unsupported("%s: R13 loop over `&mut` with `continue` in the body" % where)
+    else:
+        first = syn("\n            let %s = &%s%s[vx_i];" % (pat, "mut " if mut else "", expr))
+        tail = syn("    vx_i += 1;\n        ")
     log.append(("R13", where, re.sub(r"\s+", " ", untok(toks[kwi:ob + 1])), re.sub(r"\s+", " ", untok(head) + "{" + untok(first)) + " ... vx_i += 1; }"))
     return toks[:kwi] + head + [toks[ob]] + first + body + tail + toks[close:]
 
